@@ -969,10 +969,15 @@ def run(ctx):
             ctx.not_exercised("end-to-end self-test for %s skipped: no static_assert statement naming the option was found in the generated type headers "
                               "(the assertion may be spelled in a way the doctoring does not recognise)" % lang)
             continue
-        ctx.selftest("end-to-end: assertion removed from one generated %s type header -> header_silent" % lang,
-                     dres[(lang, "one")] == "guard.message.header_silent")
-        ctx.selftest("end-to-end: assertion removed from every generated %s type header -> mismatch_accepted" % lang,
-                     dres[(lang, "all")] == "guard.iff.mismatch_accepted")
+        for name, ok in (("end-to-end: assertion removed from one generated %s type header -> header_silent" % lang,
+                          dres[(lang, "one")] == "guard.message.header_silent"),
+                         ("end-to-end: assertion removed from every generated %s type header -> mismatch_accepted" % lang,
+                          dres[(lang, "all")] == "guard.iff.mismatch_accepted")):
+            if not ok and ctx.violations:
+                # the doctored headers come from the tree under test: on a tree that violates the property the demonstration is void, not the machinery
+                ctx.not_exercised("%s: not demonstrable on this tree (it violates the property itself, see the verdicts)" % name)
+            else:
+                ctx.selftest(name, ok)
 
     phase(ctx, "self-tests done")
     ctx.cov["rule"] = ("one evaluation = one build of a translation unit (type headers generated with option set a + support header generated with "
